@@ -730,6 +730,17 @@ class Gen:
                 out.append(e)
             else:
                 out.append(self.gen_int(sc, depth, self.loose and allow_impure)); shapes.append("expr")
+        # the same constant, in different forms, in several positions of one call (between actuals that hold calls / temporaries)
+        free = [i for i, s in enumerate(shapes) if s in ("const", "leaf", "expr", "temp")]
+        if len(free) >= 2 and imp_at < 0 and r.chance(1, 5):
+            v = r.choice([0, 1, 2, 5, 7, 255, 65536])
+            forms = [num(v), ["bin", "plus", num(v - 1 if v else 0), num(1 if v else 0), False], ["bin", "minus", num(v + 2), num(2), False]]
+            k = 2 + r.below(len(free) - 1)
+            pos = sorted(free[:1] + [free[-1]] + [r.choice(free) for _ in range(k - 2)])
+            for i in set(pos):
+                out[i] = r.choice(forms)
+                shapes[i] = "const"
+            self.features["shape:repeated-const-actuals"] += 1
         for i, s in enumerate(shapes):
             if s == "temp" and "call" in shapes[i + 1:]:
                 self.features["shape:temp-actual-before-call-actual"] += 1
@@ -1412,6 +1423,18 @@ def logic_program(rng):
             stmts.append(["call", "show", [e]])
         else:
             stmts.append(["syscall", 1, [["bin", "plus", e, num(ord("0")), False], num(0)]])
+    # a compile-time constant as the WHOLE condition of while / if (also under not)
+    for _ in range(r.below(3)):
+        cv = r.below(2)
+        c = const(cv)
+        if r.chance(1, 3):
+            c, cv = ["un", "not", c], 1 - cv
+        if cv == 0 and r.chance(1, 2):
+            stmts.append(["while", c, ["syscall", 1, [num(ord("W"), "chr"), num(0)]]])
+            feats["logic:const-while"] += 1
+        else:
+            stmts.append(["if", c, ["syscall", 1, [num(ord("T"), "chr"), num(0)]], ["syscall", 1, [num(ord("F"), "chr"), num(0)]]])
+            feats["logic:const-if"] += 1
     stmts += [["call", "show", [["name", "g"]]], ["syscall", 1, [["syscall", 2, [num(0)]], num(0)]]]
     procs.append({"kind": "proc", "name": "main", "formals": [], "locals": [], "body": ["seq", stmts]})
     return {"globals": globals_, "procs": procs}, feats
